@@ -4,15 +4,33 @@
 #ifndef PN_H_
 #define PN_H_
 #include "num_ghost.h"
+#if defined(VERIF_TRACE) && !defined(VERIF_NATIVE)
+/*
+ * counterexample build: verif.h's IN_BYTES initialises the heap object from a named array, which makes the
+ * SAT instance of these harnesses two orders of magnitude slower; here the content is *recorded* into the
+ * named array instead (same names, so the native replay finds the bytes).
+ */
+#define PN_BYTES(name, len) \
+	uint8_t * name = malloc(len); \
+	__CPROVER_assume(name != NULL)
+#define PN_RECORD(name, len) \
+	uint8_t name##_b[NUM_MAXLEN]; \
+	for (size_t name##_k = 0; name##_k < NUM_MAXLEN; name##_k++) \
+		if (name##_k < (len)) name##_b[name##_k] = name[name##_k]
+#else
+#define PN_BYTES(name, len) IN_BYTES(name, len, NUM_MAXLEN)
+#define PN_RECORD(name, len) do {} while (0)
+#endif
 #define PN_MKSTR(str) \
 	IN(size_t, slen); \
 	__CPROVER_assume(slen < NUM_MAXLEN); \
-	IN_BYTES(str##_raw, slen + 1, NUM_MAXLEN); \
+	PN_BYTES(str##_raw, slen + 1); \
 	char * str = (char *)str##_raw; \
 	for (size_t str##_i = 0; str##_i < NUM_MAXLEN; str##_i++) \
 		if (str##_i < slen) \
 			__CPROVER_assume(str[str##_i] != '\0'); \
 	str[slen] = '\0'; \
+	PN_RECORD(str##_raw, slen + 1); \
 	g_num_slen = slen
 #ifdef VERIF_NATIVE
 /* natively libc does the conversion; the ghosts are recomputed by the executable model on the same string */
